@@ -1566,6 +1566,7 @@ func runC07(r *Run, rng *Rng, replay string) {
 	c07Random(r, f, rng, nRandom)
 	c07MalformedStream(r, f, rng, nMal)
 	c07SharedWitness(r)
+	c07RangeOrder(r, rng, thorough)
 	for i := 0; i < nWb; i++ {
 		t0 := time.Now()
 		c07Workbook(r, rng, i)
@@ -1575,4 +1576,45 @@ func runC07(r *Run, rng *Rng, replay string) {
 		}
 	}
 	r.Samples = r.opsSample(10)
+}
+
+// c07RangeOrder ties Spec.refCells (the row-major enumeration the range/aggregate theorems speak
+// about) to calc.go's range resolution: every cell (col,row) of a block holds the text "col.row";
+// TEXTJOIN(",",FALSE,<reference>) evaluated by the real CalcCellValue lists the cells in the order
+// rangeResolver puts them into the argument matrix. Transcript op: cells <hex reference>.
+func c07RangeOrder(r *Run, rng *Rng, thorough bool) {
+	f := xl.NewFile()
+	defer f.Close()
+	for c := 1; c <= 9; c++ {
+		for ro := 1; ro <= 13; ro++ {
+			must(f.SetCellValue("Sheet1", c07Name(c, ro), fmt.Sprintf("%d.%d", c, ro)))
+		}
+	}
+	run := func(rf *c07Ref) {
+		text := rf.cellText()
+		must(f.SetCellFormula("Sheet1", "M20", "TEXTJOIN(\",\",FALSE,"+text+")"))
+		v, err := f.CalcCellValue("Sheet1", "M20")
+		res := v
+		if err != nil {
+			res = "ERR"
+		}
+		r.Op("cells "+hx(text), res)
+		r.Case("cells:"+text, rf.shape == 1)
+		r.Stat("cells:evaluated")
+	}
+	n := 150
+	if thorough {
+		n = 1500
+	}
+	// all small rectangles at one corner, then random ones (normalised and reversed corners, $ flags)
+	for c2 := 1; c2 <= 4; c2++ {
+		for r2 := 1; r2 <= 4; r2++ {
+			run(&c07Ref{shape: 1, c1: 2, r1: 3, c2: 2 + c2 - 1, r2: 3 + r2 - 1})
+		}
+	}
+	for i := 0; i < n; i++ {
+		rf := &c07Ref{shape: rng.Intn(2), c1: rng.Range(1, 9), r1: rng.Range(1, 13), c2: rng.Range(1, 9), r2: rng.Range(1, 13)}
+		rf.ac1, rf.ar1, rf.ac2, rf.ar2 = rng.Bool(), rng.Bool(), rng.Bool(), rng.Bool()
+		run(rf)
+	}
 }
